@@ -341,6 +341,90 @@ fn sc_lock_file_addressable() -> Option<String> {
     None
 }
 
+// ---- C10/C03 crash enumeration: one server, fed a whole session from a file, killed right before EVERY one of its
+// file-system write calls (ptrace supervisor); then the tree is inspected and a fresh server is asked about it ----
+fn crash_sessions() -> Vec<(&'static str, Vec<(&'static str, Vec<u8>)>, Vec<u8>, &'static str, Vec<u8>)> {
+    // (name, initial files, session bytes, target path, new content)
+    let big: Vec<u8> = (0..600_000usize).map(|i| (i % 249) as u8).collect();
+    let mut out = vec![];
+    let mk = |reqs: Vec<(Request, Vec<u8>)>| -> Vec<u8> { let mut v = MAGIC.to_vec(); for (r, body) in reqs { let _ = write_frame(&mut v, &r); v.extend(body); } let _ = write_frame(&mut v, &Request::Bye); v };
+    out.push(("put-commits-over-existing", vec![("f", b"OLD-CONTENT".to_vec()), ("other", b"untouched".to_vec())],
+              mk(vec![(Request::Put { path: "f".into(), expected: Some(h(b"OLD-CONTENT")), len: big.len() as u64, hash: h(&big) }, big.clone())]), "f", big.clone()));
+    out.push(("put-creates-nested", vec![("other", b"untouched".to_vec())],
+              mk(vec![(Request::Put { path: "d/e/new.bin".into(), expected: None, len: 5, hash: h(b"fresh") }, b"fresh".to_vec())]), "d/e/new.bin", b"fresh".to_vec()));
+    out.push(("stale-put-lands-a-conflict-copy", vec![("f", b"OLD-CONTENT".to_vec())],
+              mk(vec![(Request::Put { path: "f".into(), expected: Some(h(b"not what is there")), len: 9, hash: h(b"loser-put") }, b"loser-put".to_vec())]), "f", b"loser-put".to_vec()));
+    out.push(("delete-then-put", vec![("f", b"OLD-CONTENT".to_vec())],
+              mk(vec![(Request::Delete { path: "f".into(), expected: Some(h(b"OLD-CONTENT")) }, vec![]), (Request::Put { path: "f".into(), expected: None, len: 3, hash: h(b"new") }, b"new".to_vec())]), "f", b"new".to_vec()));
+    out
+}
+pub fn crash_point(si: usize, k: usize) -> (Option<String>, bool, usize) {
+    let all = crash_sessions();
+    let (name, init, session, target, newc) = &all[si.min(all.len() - 1)];
+    let r = root(&format!("crash{si}k{k}"));
+    for (p, c) in init { let f = r.join(p); if let Some(d) = f.parent() { let _ = std::fs::create_dir_all(d); } let _ = std::fs::write(f, c); }
+    let side = std::env::temp_dir().join(format!("copia-verif-serve-{}-crashio{si}k{k}", std::process::id()));
+    let _ = std::fs::create_dir_all(&side);
+    let (inp, outp) = (side.join("in"), side.join("out"));
+    let _ = std::fs::write(&inp, session);
+    let before: std::collections::BTreeMap<String, Vec<u8>> = live_files(&r).into_iter().collect();
+    let mut c = Command::new(std::env::var("COPIA_BIN").unwrap_or_default());
+    c.arg("serve").arg(&r).env("RUST_BACKTRACE", "0");
+    if let (Ok(i), Ok(o)) = (std::fs::File::open(&inp), std::fs::File::create(&outp)) { c.stdin(i).stdout(o).stderr(Stdio::null()); }
+    let Some(o) = crate::killer::run(&mut c, k) else { return (None, false, 0) };
+    let calls = o.calls;
+    let cleanup = |x: (Option<String>, bool, usize)| { let _ = std::fs::remove_dir_all(&r); let _ = std::fs::remove_dir_all(&side); x };
+    if k == 0 || !o.killed { return cleanup((None, false, calls)); }
+    let at = o.last.replace(&r.to_string_lossy().into_owned(), "");
+    // what the client was told before the kill
+    let replies: Vec<Response> = { let mut v = vec![]; if let Ok(f) = std::fs::File::open(&outp) { let mut br = BufReader::new(f); while let Ok(Some(x)) = read_frame::<_, Response>(&mut br) { v.push(x); } } v };
+    let after: std::collections::BTreeMap<String, Vec<u8>> = live_files(&r).into_iter().filter(|(p, _)| !p.ends_with(".copia-tmp")).collect();
+    for (p, v) in &after {
+        let ok = before.get(p) == Some(v) || ((p == target || p.starts_with(&format!("{target}.conflict-"))) && v == newc);
+        if !ok { return cleanup((Some(format!("[{name}] server killed right before its {k}-th file-system write call `{at}`: hub path `{p}` holds {} bytes that are neither what the hub had ({}) nor the complete verified content of the one write in flight ({} bytes) (C10)", v.len(), before.get(p).map(|b| format!("{} bytes", b.len())).unwrap_or("nothing".into()), newc.len())), true, calls)); }
+    }
+    for p in before.keys() { if !after.contains_key(p) && p != target { return cleanup((Some(format!("[{name}] server killed before call {k} `{at}`: `{p}` vanished (C10)")), true, calls)); } }
+    if replies.iter().any(|x| matches!(x, Response::PutResult { committed: true, .. })) && after.get(*target) != Some(newc) {
+        return cleanup((Some(format!("[{name}] server killed before call {k} `{at}`: the client had already been told committed:true, but `{target}` does not hold the acknowledged content (C03)")), true, calls));
+    }
+    if replies.iter().any(|x| matches!(x, Response::PutResult { committed: false, .. })) && !after.iter().any(|(p, v)| p.starts_with(&format!("{target}.conflict-")) && v == newc) {
+        return cleanup((Some(format!("[{name}] server killed before call {k} `{at}`: the client had been told committed:false, but no conflict copy holds its bytes (C03)")), true, calls));
+    }
+    // a fresh server on the tree the kill left: it must serve exactly what is on disk, and accept a correct CAS write
+    let res = (|| -> Option<String> {
+        let mut s = Srv::start(&r)?; s.magic();
+        if let Some(cur) = after.get(*target) {
+            match s.get(target) { Some((len, hash, body)) if len as usize == cur.len() && hash == h(cur) && &body == cur => {}, o => return Some(format!("[{name}] after a kill before call {k} `{at}`, a fresh server's Get `{target}` does not return the file on disk: {:?} (C10)", o.map(|(l, _, b)| (l, b.len())))) }
+        }
+        match s.put(target, after.get(*target).map(|b| h(b)), b"after-the-crash") { Some(Response::PutResult { committed: true, .. }) => {}, o => return Some(format!("[{name}] after a kill before call {k} `{at}`, a correct compare-and-swap Put on `{target}` is not committed: {o:?} (C03/C10)")) }
+        let _ = s.close_and_wait(5);
+        None
+    })();
+    cleanup((res, true, calls))
+}
+pub fn crash_search(as_twin: bool, thorough: bool) -> i32 {
+    if std::env::var("COPIA_BIN").unwrap_or_default().is_empty() { eprintln!("COPIA_BIN not set"); if as_twin { println!("CASES 0"); } return 0; }
+    let mut cases = 0;
+    for si in 0..crash_sessions().len() {
+        let n = crash_point(si, 0).2;
+        let mut reported = 0;
+        let mut k = 1;
+        while k <= n {
+            let (w, killed, _) = crash_point(si, k);
+            if killed { cases += 1; }
+            if let Some(what) = w { if reported < 2 { println!("WITNESS {{\"kind\":\"serve-crash\",\"session\":{si},\"k\":{k},\"what\":\"{}\"}}", what.replace('"', "'").replace('\n', " ")); } reported += 1; }
+            k += if thorough || k < 30 { 1 } else { 2 };
+        }
+        eprintln!("serve crash session {si}: {n} kill points, {reported} violating");
+    }
+    if as_twin { println!("CASES {cases}"); }
+    0
+}
+pub fn run_crash(w: &str) -> i32 {
+    let (si, k) = (json_u64(w, "session").unwrap_or(0) as usize, json_u64(w, "k").unwrap_or(1) as usize);
+    match crash_point(si, k) { (Some(what), _, _) => { println!("REPRODUCED: {what}"); 1 } (None, killed, _) => { println!("not reproduced: session {si}, kill point {k} (killed: {killed}): only complete verified content at live paths, replies truthful, a fresh server serves the tree"); 0 } }
+}
+
 /// thorough tier: a random request program, its requests dealt alternately to two real server processes on one root (one
 /// request at a time: the one-at-a-time execution IS the program order), checked reply by reply and tree against the
 /// sequential compare-and-swap semantics of the property. Paths include refused ones; `expected` is right, stale or None.
